@@ -699,7 +699,7 @@ Qed.
 
 Theorem json_accepts_valid_proof : forall d, value d ->
   exists units final, drive (S (length d)) (json_init d) = Done units final /\
-                      err_kind final = 1 /\ rejoin units = strip_ws d.
+                      err_kind final = 1 /\ state final = Some S_Value /\ rejoin units = strip_ws d.
 Proof.
   intros d Hv. destruct Hv as [w1 v w2 Hw1 Hv Hw2].
   set (d := w1 ++ v ++ w2).
@@ -728,7 +728,7 @@ Proof.
   destruct (runs_progress d _ _ _ (json_inv_init d) Hrun) as [Hinv1 Hle].
   pose proof (json_inv_pos d p1 Hinv1) as Hpos. cbn [json_init pz lx_init lpos] in Hle.
   assert (Hlen : (length us <= length d)%nat) by (unfold len in *; lia).
-  exists us, pf. split; [|split; [exact Hkind|]].
+  exists us, pf. split; [|split; [exact Hkind|split; [unfold state, pf; cbn [pst]; rewrite Hst1; reflexivity|]]].
   - replace (S (length d)) with (length us + S (length d - length us))%nat by lia.
     rewrite (drive_runs _ _ _ Hrun). cbn [drive]. rewrite Hnext. cbn [Z.eqb G_Error]. rewrite app_nil_r. reflexivity.
   - rewrite Hrj. unfold d.
